@@ -277,6 +277,8 @@ class ServePatch(RequestHandlerBase):
             stream=current_stream,
             original_publish_time=original_publish_time))
 
+        if manifest.endswith('.mpd'):
+            manifest = manifest[:-4]
         body = flask.render_template(f'patches/{manifest}.xml', **context)
         try:
             max_age = int(math.floor(context["minimumUpdatePeriod"]))
